@@ -343,7 +343,16 @@ func c09Render(spec c09Spec, policy string, seed uint64, dir string, tag string)
 			for _, nm := range names {
 				h.Write([]byte("part:" + nm + "\n"))
 				if rc, err := byName[nm].Open(); err == nil {
-					io.Copy(h, rc)
+					if nm == "[Content_Types].xml" || strings.HasSuffix(nm, ".rels") {
+						// package manifests are sets: the writer emits their entries in map order (observed: the two Default
+						// elements of [Content_Types].xml swap between processes), which is not content
+						b, _ := io.ReadAll(rc)
+						lines := strings.Split(string(b), "\n")
+						sort.Strings(lines)
+						h.Write([]byte(strings.Join(lines, "\n")))
+					} else {
+						io.Copy(h, rc)
+					}
 					rc.Close()
 				}
 			}
